@@ -424,6 +424,10 @@ func (s *SMT) traverse() (err lib.ErrorI) {
 			currentKey = s.current.RightChildKey
 		}
 		s.stats.TraverseSteps++
+		// a node without a child on that side cannot be traversed any further
+		if len(currentKey) == 0 {
+			return ErrInvalidMerkleTree()
+		}
 		// load current node from the store
 		s.current, err = s.getNode(currentKey)
 		if err != nil {
@@ -881,6 +885,11 @@ func (s *SMT) VerifyProof(k []byte, v []byte, validateMembership bool, root []by
 	// navigates the tree downward
 	if err := smt.traverse(); err != nil {
 		return false, err
+	}
+	// the traversal must end at the node being proven (the first value in the proof); ending at
+	// a sibling reveals nothing about the target, as the sibling's subtree is not part of the proof
+	if !bytes.Equal(smt.current.Key.bytes(), proof[0].Key) {
+		return false, nil
 	}
 	// Verify whether the key exists in the tree and what kind of proof is being validated
 	// (membership or non-membership).
